@@ -4,8 +4,9 @@
    sweeper and the clock, so "for all histories and schedules" is "for all `ops : list op`".
    The step function takes the `variant` of provider.go: `code_variant` is the code as it is,
    `old_variant` the code before the repairs C15-sameid-race (GetOrCreate's insert region and
-   Release identify a cache entry by id AND cursor) and C15-shutdown-close (Shutdown evicts the
-   cache). Every full statement is a Definition over the variant, proved for `code_variant` with no
+   Release identify a cache entry by id AND cursor), C15-shutdown-close (Shutdown evicts the
+   cache) and C03-stale-peek-on-retried-page (GetOrCreate drops a cached idle cursor that stands at another
+   position than the requested one instead of re-positioning it). Every full statement is a Definition over the variant, proved for `code_variant` with no
    hypothesis on the clients (any number of concurrent requests may name the same id), and
    refuted for `old_variant` by the witness that the harness corpus still replays on the
    implementation. K runs `step code_variant`. *)
@@ -113,14 +114,14 @@ Print Assumptions C15_exclusive_idonly_refuted.
 
 (* in every state: a request for an id whose cached cursor is marked busy is refused and changes nothing;
    a cursor is handed out of the cache only if it was marked idle *)
-Theorem C15_refuse_busy : forall s r id cache q qr p fresh e,
+Theorem C15_refuse_busy : forall drop s r id cache q qr p fresh e,
   act_get (p_act s) r = AIdle -> id <> 0%N -> map_get (p_curs s) id = Some e -> h_busy (p_vals s e) = true ->
-  get_lookup s r id cache q qr p fresh = Ok (s, RRefused).
+  get_lookup drop s r id cache q qr p fresh = Ok (s, RRefused).
 Proof. exact refuse_busy. Qed.
 Print Assumptions C15_refuse_busy.
 
-Theorem C15_hit_only_idle : forall s r id cache q qr p fresh s' c,
-  get_lookup s r id cache q qr p fresh = Ok (s', RHit c) ->
+Theorem C15_hit_only_idle : forall drop s r id cache q qr p fresh s' c,
+  get_lookup drop s r id cache q qr p fresh = Ok (s', RHit c) ->
   exists e, map_get (p_curs s) id = Some e /\ h_busy (p_vals s e) = false /\ h_cur (p_vals s e) = Some c.
 Proof. exact hit_only_idle. Qed.
 Print Assumptions C15_hit_only_idle.
@@ -276,9 +277,9 @@ Proof. vm_compute. repeat split; reflexivity. Qed.
 (* ------------------------------------------------------------------ resume *)
 (* unconditionally: a request naming an id the cache does not know (never seen, expired, evicted) is not refused:
    the lookup misses and keeps the supplied state ... *)
-Theorem C15_resume_lookup : forall s r id cache q qr p fresh,
+Theorem C15_resume_lookup : forall drop s r id cache q qr p fresh,
   act_get (p_act s) r = AIdle -> id <> 0%N -> map_get (p_curs s) id = None ->
-  get_lookup s r id cache q qr p fresh = Ok (set_actor s r (AMiss id q qr p cache), RMiss).
+  get_lookup drop s r id cache q qr p fresh = Ok (set_actor s r (AMiss id q qr p cache), RMiss).
 Proof. exact resume_lookup. Qed.
 Print Assumptions C15_resume_lookup.
 
@@ -298,7 +299,8 @@ Print Assumptions C15_resume_create.
 (* ------------------------------------------------------------------ non-vacuity and the Next()-returns-prev effect *)
 (* a disciplined history that meets every life cycle: uncached release, resume with the returned position, hit,
    refusal of a concurrent request, idle expiry, busy expiry followed by the release, eviction by size of a busy
-   and an idle cursor, fallback after a failed ApplyState; the discipline holds and the state is not trivial *)
+   and an idle cursor, fallback after a failed ApplyState (the position of the cached cursor, another query); the
+   discipline holds and the state is not trivial *)
 Definition tour : list op :=
   [OLookup 0 1 false 0 (QParts [0%N]) PHead 100; OCreate 0; OUse 0 3; ORelease 0;
    OLookup 0 1 true 0 (QParts [0%N]) (PAt 3) 101; OCreate 0; OInsert 0; ORelease 0;
@@ -311,7 +313,7 @@ Definition tour : list op :=
    OSweepSize;
    OLookup 2 7 true 0 (QParts [0%N]) PHead 108; OCreate 2; OInsert 2;
    OSweepSize; ORelease 0; ORelease 1; ORelease 2;
-   OLookup 1 6 true 0 (QParts [0%N]) PHead 109; OCreate 1; OInsert 1].
+   OLookup 1 6 true 0 (QParts [0%N]) (PAt 0) 109; OCreate 1; OInsert 1].
 
 Example C15_nonvacuous :
   disciplined code_variant (init 2 3 7) tour = true /\
@@ -321,6 +323,22 @@ Example C15_nonvacuous :
   act_get (p_act (final code_variant 2 3 7 tour)) 1 = AHold 7 /\
   map (fun c => c_rels (p_cur (final code_variant 2 3 7 tour) c)) (seq 0 8) = [1; 1; 1; 1; 1; 0; 0; 0] /\
   nth 9 (snd (fst (run code_variant (init 2 3 7) tour))) RNone = RRefused.
+Proof. vm_compute. repeat split; reflexivity. Qed.
+
+(* a request that names another position than the one its cached idle cursor stands at: the cursor is closed (its
+   partition handed back once), the id leaves the cache and the request goes on as a miss under the same id - the new
+   cursor is cached under it, at the requested position; with the same position the cached cursor is handed out *)
+Example C15_other_position_drops :
+  let ops := [OLookup 0 5 true 0 (QParts [0%N]) PHead 100; OCreate 0; OInsert 0; OUse 0 4; ORelease 0] in
+  let s1 := final code_variant 10 3 7 (ops ++ [OLookup 1 5 true 0 (QParts [0%N]) (PAt 2) 101]) in
+  let s2 := final code_variant 10 3 7 (ops ++ [OLookup 1 5 true 0 (QParts [0%N]) (PAt 2) 101; OCreate 1; OInsert 1; ORelease 1]) in
+  nth 4 (results_of code_variant 10 3 7 ops) RNone = RReleased 5 (PAt 4) /\
+  nth 5 (results_of code_variant 10 3 7 (ops ++ [OLookup 1 5 true 0 (QParts [0%N]) (PAt 4) 101])) RNone = RHit 0 /\
+  nth 5 (results_of code_variant 10 3 7 (ops ++ [OLookup 1 5 true 0 (QParts [0%N]) (PAt 2) 101])) RNone = RMiss /\
+  p_curs s1 = [] /\ c_live (p_cur s1 0) = false /\ c_rels (p_cur s1 0) = 1 /\ p_acq s1 0%N = 0%Z /\
+  act_get (p_act s1) 1 = AMiss 5 0 (QParts [0%N]) (PAt 2) true /\
+  cached_ids s2 = [5%N] /\ c_id (p_cur s2 1) = 5%N /\ c_spos (p_cur s2 1) = PAt 2 /\ c_live (p_cur s2 1) = true /\ p_acq s2 0%N = 1%Z /\
+  nth 5 (results_of old_variant 10 3 7 (ops ++ [OLookup 1 5 true 0 (QParts [0%N]) (PAt 2) 101])) RNone = RHit 0.
 Proof. vm_compute. repeat split; reflexivity. Qed.
 
 (* Next() returns prev: after an element is removed the sweep skips its neighbour. Three idle cursors, the two
